@@ -2,6 +2,7 @@
 CONSTANTS
   Interps = {"i1"}
   UnwindOnFailure = TRUE
+  DetachCallerEnv = TRUE
   Mode = "c11"
   ModSeq <- Mods5
   MaxOut = 2
